@@ -409,7 +409,7 @@ pub fn slow_ms() -> Option<u64> {
 }
 
 fn hang_limit_s() -> u64 {
-    std::env::var("VERIF_HANG_S").ok().and_then(|s| s.parse().ok()).unwrap_or(30)
+    std::env::var("VERIF_HANG_S").ok().and_then(|s| s.parse().ok()).unwrap_or(120)
 }
 
 /// Run `simcheck replay FILE` in a child process with a kill timeout.
